@@ -140,7 +140,7 @@ def bind_generics(interp, f, info, arg_tys, dest_ty, self_text=None):
 def resolve_call(interp, text, args, arg_tys, dest_ty):
     prog = interp.prog
     rt0 = rt_name(args[0]) if args else None
-    key = (text, rt0, tuple(arg_tys), dest_ty)
+    key = (text, rt0, tuple(arg_tys), dest_ty, args[0].dyn_ty if args and isinstance(args[0], DynRef) else None)
     hit = prog.resolve_cache.get(key)
     if hit is not None: return hit
     r = _resolve(interp, text, args, arg_tys, dest_ty, rt0)
@@ -184,6 +184,16 @@ def _resolve(interp, text, args, arg_tys, dest_ty, rt0):
         return pick(interp, opts, info, args, arg_tys, dest_ty, '::'.join(info['module'] + [info['owner']]), text)
     # qualified: <X as Trait>::method
     X = info['self_ty']; trait = info['trait']
+    if X is not None and X.startswith('dyn ') and args:
+        # trait-object call: dispatch on the runtime type of the receiver
+        a0 = args[0]; rt = None
+        if isinstance(a0, DynRef): rt = a0.dyn_ty
+        else:
+            v0 = a0
+            while isinstance(v0, (Ref, RBox)): v0 = v0.get() if isinstance(v0, Ref) else v0.cell[0]
+            if isinstance(v0, (Agg, Enum)) and v0.ty not in ('tuple', 'array'): rt = v0.ty
+        if rt is not None and not rt.startswith('dyn '):
+            return _resolve(interp, '<%s as %s>::%s' % (rt, trait, method), args, arg_tys, dest_ty, rt0)
     if trait is None:
         # <X>::method  inherent on primitive / slice
         return find_model(interp, info, text)
